@@ -176,6 +176,9 @@ func getPayeeOrDescription(tx *ast.Transaction) string {
 }
 
 func estimatePayeeRange(tx *ast.Transaction, payee string) ast.Range {
+	if tx.PayeeRange.Start.Line != 0 {
+		return tx.PayeeRange
+	}
 	startCol := tx.Date.Range.End.Column + 1
 	if tx.Status != ast.StatusNone {
 		startCol += 2
